@@ -25,8 +25,9 @@ from engine.sx import tmo_world as W
 A = ('Water', 'Ethanol', 'Methanol')               # main package
 B = ('Methanol', 'Water')                           # subset, other order
 B4 = ('Methanol', 'Ethanol', 'Water', 'Octane')     # superset, other order
-PKG = {'A': A, 'B': B, 'B4': B4}
-W.preload([A, B, B4])
+P3 = ('Methanol', 'Water', 'Ethanol')               # the chemicals of A listed in another order
+PKG = {'A': A, 'B': B, 'B4': B4, 'P': P3}
+W.preload([A, B, B4, P3])
 
 # stream kinds: single-phase Stream 'l','g','s','L'; MultiStream 'm:<phases>' built by the constructor;
 # 'c:<phases>' = Stream cast to MultiStream through `stream.phases = ...`
@@ -165,6 +166,102 @@ def views_consistent(w, s):
     return w.And(*cs)
 
 
+def by_name(s):
+    """Flows read through the public by-name accessors: imol[phase, ID] (imol[ID] for a single-phase stream), keyed
+    (phase, CAS); for a multi-phase stream also the total imol[ID] over the phases, keyed ('*', CAS)."""
+    ch = s.chemicals
+    out = {}
+    if isinstance(s, tmo.MultiStream):
+        for ph in s.phases:
+            for ID, cas in zip(ch.IDs, ch.CASs):
+                out[ph, cas] = s.imol[ph, ID]
+        for ID, cas in zip(ch.IDs, ch.CASs):
+            out['*', cas] = s.imol[ID]
+    else:
+        for ID, cas in zip(ch.IDs, ch.CASs):
+            out[s.phase, cas] = s.imol[ID]
+    return out
+
+
+def by_name_ok(w, s):
+    """The flows a stream reports by (phase, chemical ID) are its flows: the value stored for that chemical of the
+    stream's own property package in that phase (observable state must not depend on the accessor used)."""
+    o = obs(s)
+    exp = dict(o['flows'])
+    if isinstance(s, tmo.MultiStream):
+        for (ph, cas), v in o['flows'].items():
+            exp['*', cas] = exp.get(('*', cas), 0.) + v
+    try:
+        got = by_name(s)
+    except (IndexError, KeyError, AttributeError):      # a stream whose flows cannot be read by name does not report them
+        return False
+    return eq_map(w, got, exp)
+
+
+def _eq_targets(s):
+    """(role, flow indexer, thermal condition) the equilibrium methods vle/lle/sle of a multi-phase stream are bound to:
+    the arguments their object will be built from and, if it was handed out already, the object itself.  Nothing is
+    loaded here (handing out `s.vle` adds the phases 'g','l' to the stream)."""
+    out = []
+    for name in ('vle', 'lle', 'sle'):
+        c = getattr(s, f'_{name}_cache')
+        out.append((f'{name} (to be built)', c.args[0], c.args[1]))
+        if c.value is not None:
+            out.append((f'{name} (handed out)', c.value.imol, c.value.thermal_condition))
+    return out
+
+
+def eq_own(w, s):
+    """A multi-phase stream's equilibrium methods (vle, lle, sle) work on -- i.e. read and write -- the stream's own
+    flow indexer and thermal condition (assumption A-eq-writes: an equilibrium call changes nothing but the `imol`
+    and `thermal_condition` its equilibrium object is bound to).  Otherwise a later change made through them would be
+    visible in another stream, or not in this one."""
+    if not isinstance(s, tmo.MultiStream):
+        return True
+    try:
+        return w.And(*[w.And(imol is s.imol, imol.data is s.imol.data, tc is s.thermal_condition)
+                       for _, imol, tc in _eq_targets(s)])
+    except AttributeError:      # a multi-phase stream without equilibrium methods
+        return False
+
+
+def eq_foreign(s):
+    return [role for role, imol, tc in _eq_targets(s) if not (imol is s.imol and imol.data is s.imol.data and tc is s.thermal_condition)] \
+        if isinstance(s, tmo.MultiStream) else []
+
+
+def load_eq(s):
+    """Hand out (and thereby cache) the equilibrium objects of a multi-phase stream through the public accessors
+    `s.vle`, `s.lle`, `s.sle` -- those whose phases the stream has already (the others would add phases)."""
+    if isinstance(s, tmo.MultiStream):
+        ph = set(s.phases)
+        if {'g', 'l'} <= ph: s.vle
+        if {'L', 'l'} <= ph: s.lle
+        if {'l', 's'} <= ph: s.sle
+
+
+def eq_roles(s):
+    """Containers the equilibrium methods of a multi-phase stream write to, by role (identity facts)."""
+    d = {}
+    if not isinstance(s, tmo.MultiStream): return d
+    for role, imol, tc in _eq_targets(s):
+        d[f'{role}.imol'] = imol
+        d[f'{role}.data'] = imol.data
+        d[f'{role}.thermal_condition'] = tc
+        for n, r in enumerate(getattr(imol.data, 'rows', ())):
+            d[f'{role}.row{n}'] = r
+    return d
+
+
+def eq_shared_roles(a, b):
+    """Roles of containers written by a's equilibrium methods that are containers of b (flows, T, P) or are written
+    by b's equilibrium methods."""
+    cb = containers(b)
+    cb.update(eq_roles(b))
+    ids = {id(v) for v in cb.values()}
+    return sorted(k for k, v in eq_roles(a).items() if id(v) in ids)
+
+
 def havoc(w, s, tag, flows=True, TP=True, phase=True):
     """An arbitrary symbolic write to every observable quantity of `s` through the public API."""
     if flows:
@@ -190,13 +287,23 @@ def copy_configs(tier):
     out = []
     for k in kinds:
         for how in ['copy', '__copy__']:
-            for th in ['none', 'same', 'B4']:
+            for th in ['none', 'same', 'B4', 'P']:
                 if how == '__copy__' and th != 'none': continue
                 if tier != 'thorough' and th == 'B4' and k not in ('l', 'm:gl'): continue
+                if tier != 'thorough' and th == 'P' and k not in ('l', 'm:gl', 'c:gl'): continue
                 out.append({'name': f'kind={k};how={how};thermo={th}', 'kind': k, 'how': how, 'thermo': th})
     if tier == 'thorough':
         for k in ['s', 'L', 'm:gls', 'm:g', 'c:Ll']:
             out.append({'name': f'kind={k};how=copy;thermo=none', 'kind': k, 'how': 'copy', 'thermo': 'none'})
+    # histories: the original is read by (phase, ID) before the copy is (default: the copy first); the equilibrium
+    # objects of the original were handed out before it is copied
+    more = [('m:gl', 'copy', 'P'), ('m:gl', 'copy', 'none'), ('c:gl', 'copy', 'P'), ('m:gl', '__copy__', 'none')]
+    if tier == 'thorough':
+        more += [('m:gl', 'copy', 'B4'), ('m:Ll', 'copy', 'P'), ('m:gls', 'copy', 'P'), ('c:Ll', 'copy', 'B4'), ('l', 'copy', 'P')]
+    for k, how, th in more:
+        for read, eq in (('original-first', 'fresh'), ('copy-first', 'loaded'), ('original-first', 'loaded')):
+            out.append({'name': f'kind={k};how={how};thermo={th};read={read};eq={eq}', 'kind': k, 'how': how, 'thermo': th,
+                        'read': read, 'eq': eq})
     return out
 
 
@@ -210,13 +317,17 @@ def copy_configs(tier):
 def copy_(w, cfg):
     W.reset_caches()
     s = _mk(w, 's', cfg['kind'], 'A', 'pos+maybe')
+    if cfg.get('eq') == 'loaded': load_eq(s)
     pre = obs(s)
+    if cfg.get('read') == 'original-first':
+        w.ensure('before the copy: flows read by (phase, ID) are the flows of the original', by_name_ok(w, s))
     if cfg['how'] == '__copy__':
         c = _copy.copy(s)
     elif cfg['thermo'] == 'none':
         c = s.copy()
     else:
         c = s.copy(thermo=W.thermo(PKG['A' if cfg['thermo'] == 'same' else cfg['thermo']]))
+        w.ensure('copy uses the requested property package', c.thermo is W.thermo(PKG['A' if cfg['thermo'] == 'same' else cfg['thermo']]))
     oc = obs(c)
     w.ensure('copy has the same flows and phase(s)', same_flows(w, pre, oc))
     w.ensure('copy has the same T and P', same_TP(w, pre, oc))
@@ -224,13 +335,22 @@ def copy_(w, cfg):
     w.ensure('copy rep_ok', rep_ok(w, oc))
     w.ensure('copy shares no container with the original', shared_roles(c, s) == [], shared=shared_roles(c, s))
     w.ensure('copy: phase views consistent', views_consistent(w, c))
+    first, second = (c, s) if cfg.get('read', 'copy-first') == 'copy-first' else (s, c)
+    w.ensure('flows read by (phase, ID): first stream read reports its flows', by_name_ok(w, first), which=cfg.get('read', 'copy-first'))
+    w.ensure('flows read by (phase, ID): second stream read reports its flows', by_name_ok(w, second))
+    w.ensure('copy: equilibrium methods work on the copy\'s own flows, T and P', eq_own(w, c), foreign=eq_foreign(c))
+    w.ensure('original: equilibrium methods work on the original\'s own flows, T and P', eq_own(w, s), foreign=eq_foreign(s))
+    w.ensure('copy: equilibrium methods write to no container of the original', eq_shared_roles(c, s) == [], shared=eq_shared_roles(c, s))
+    w.ensure('original: equilibrium methods write to no container of the copy', eq_shared_roles(s, c) == [], shared=eq_shared_roles(s, c))
     # independence, both directions (frame)
     havoc(w, c, 'wc')
     os2 = obs(s)
     w.ensure('write to the copy is not visible in the original', same_obs(w, pre, os2))
+    w.ensure('after a write to the copy: flows read by (phase, ID) are the flows of each stream', w.And(by_name_ok(w, c), by_name_ok(w, s)))
     oc2 = obs(c)
     havoc(w, s, 'ws')
     w.ensure('write to the original is not visible in the copy', same_obs(w, oc2, obs(c)))
+    w.ensure('after a write to the original: flows read by (phase, ID) are the flows of each stream', w.And(by_name_ok(w, s), by_name_ok(w, c)))
     w.canary('canary: copy has T + 1', w.eq(oc['T'], pre['T'] + 1))
     w.canary('canary: write to the copy visible in the original', same_TP(w, os2, oc2))
 
@@ -312,11 +432,18 @@ def copy_like(w, cfg):
     w.ensure('flows equal to the source, phase by phase', eq_map(w, ot['flows'], exp))
     w.ensure('source unchanged', same_obs(w, pre, obs(s)))
     w.ensure('target rep_ok', rep_ok(w, ot))
+    w.ensure('flows read by (phase, ID) are the flows of the target', by_name_ok(w, t))
+    w.ensure('flows read by (phase, ID) are the flows of the source', by_name_ok(w, s))
+    w.ensure('equilibrium methods of the target work on its own flows, T and P', eq_own(w, t), foreign=eq_foreign(t))
+    w.ensure('equilibrium methods of the source work on its own flows, T and P', eq_own(w, s), foreign=eq_foreign(s))
     if t is not s:
         w.ensure('target shares no container with the source', shared_roles(t, s) == [], shared=shared_roles(t, s))
+        w.ensure('equilibrium methods of either stream write to no container of the other',
+                 eq_shared_roles(t, s) + eq_shared_roles(s, t) == [], shared=eq_shared_roles(t, s) + eq_shared_roles(s, t))
         w.ensure('target phase views consistent', views_consistent(w, t))
         havoc(w, t, 'wt')
         w.ensure('later write to the target is not visible in the source', same_obs(w, pre, obs(s)))
+        w.ensure('after a write to the target: flows read by (phase, ID) are the flows of each stream', w.And(by_name_ok(w, t), by_name_ok(w, s)))
     w.canary('canary: T = source T + 1', w.eq(ot['T'], pre['T'] + 1))
     k0 = sorted(pre['flows'], key=str)
     if k0:
@@ -404,7 +531,13 @@ def link_configs(tier):
     for fl in ([True, True, True], [True, False, False]):
         op = 'link:' + '+'.join(n for n, f in zip(('flow', 'phase', 'TP'), fl) if f)
         out.append({'name': f'a=m:gl;b=m:Ll;op={op};unlink=a', 'a': 'm:gl', 'b': 'm:Ll', 'op': 'link', 'flags': fl, 'unlink': 'a'})
-    return out
+    # histories in which the equilibrium objects (s.vle ...) of the multi-phase streams were handed out before linking
+    loaded = []
+    for c in out:
+        if not _is_multi(c['b']) or (c['a'] is not None and not _is_multi(c['a'])): continue
+        if tier != 'thorough' and not (c['b'] == 'm:gl' and c['a'] in (None, 'm:gl')): continue
+        loaded.append(dict(c, name=c['name'] + ';eq=loaded', eq='loaded'))
+    return out + loaded
 
 
 def _part(o, part, multi):
@@ -442,11 +575,13 @@ def link(w, cfg):
     parts = ['flow', 'TP'] if multi else ['flow', 'phase', 'TP']
     if multi:
         for ph in b.phases: b[ph]          # per-phase views are handed out (and cached) before linking
+    if cfg.get('eq') == 'loaded': load_eq(b)
     pre_b = obs(b)
     if cfg['op'] == 'link':
         a = _mk(w, 'a', cfg['a'], 'A')
         if _is_multi(cfg['a']):
             for ph in a.phases: a[ph]
+        if cfg.get('eq') == 'loaded': load_eq(a)
         pre_a = obs(a)
         sel = dict(zip(('flow', 'phase', 'TP'), cfg['flags']))
         try:
@@ -474,6 +609,11 @@ def link(w, cfg):
     if multi and sel['flow']:
         w.ensure('flow selected: phases equal to the source', oa['phases'] == ob['phases'], a=oa['phases'], b=ob['phases'])
     w.ensure('linked: phase views consistent', w.And(views_consistent(w, a), views_consistent(w, b)))
+    w.ensure('linked: flows read by (phase, ID) are the flows of each stream', w.And(by_name_ok(w, a), by_name_ok(w, b)))
+    # a change made by an equilibrium method of a stream is a change to that stream: it goes through the selected
+    # (shared) parts to the other stream and for the rest stays in the stream itself
+    w.ensure('linked: equilibrium methods of a work on a\'s own flows, T and P', eq_own(w, a), foreign=eq_foreign(a))
+    w.ensure('linked: equilibrium methods of b work on b\'s own flows, T and P', eq_own(w, b), foreign=eq_foreign(b))
     # write-through exactly for the selected parts, both directions
     for src, dst, tag in ((b, a, 'wb'), (a, b, 'wa')):
         before = obs(dst)
@@ -493,12 +633,18 @@ def link(w, cfg):
     w.ensure('unlink preserves the values of the other stream', same_obs(w, po, obs(o)))
     w.ensure('after unlink no container is shared', shared_roles(a, b) == [], shared=shared_roles(a, b))
     w.ensure('after unlink: phase views consistent', w.And(views_consistent(w, a), views_consistent(w, b)))
+    w.ensure('after unlink: flows read by (phase, ID) are the flows of each stream', w.And(by_name_ok(w, a), by_name_ok(w, b)))
+    w.ensure('after unlink: equilibrium methods of the unlinked stream work on its own flows, T and P', eq_own(w, u), foreign=eq_foreign(u))
+    w.ensure('after unlink: equilibrium methods of the other stream work on its own flows, T and P', eq_own(w, o), foreign=eq_foreign(o))
+    w.ensure('after unlink: equilibrium methods of either stream write to no container of the other',
+             eq_shared_roles(a, b) + eq_shared_roles(b, a) == [], shared=eq_shared_roles(a, b) + eq_shared_roles(b, a))
     pb = obs(b)
     havoc(w, a, 'ua')
     w.ensure('after unlink a write to a is not visible in b', same_obs(w, pb, obs(b)))
     pa = obs(a)
     havoc(w, b, 'ub')
     w.ensure('after unlink a write to b is not visible in a', same_obs(w, pa, obs(a)))
+    w.ensure('after unlink and writes: flows read by (phase, ID) are the flows of each stream', w.And(by_name_ok(w, a), by_name_ok(w, b)))
     w.canary('canary: after unlink T still follows', w.eq(obs(a)['T'], obs(b)['T']))
 
 
